@@ -27,7 +27,11 @@ type Case struct {
 	Mgr       scen.MgrOpts `json:"mgr"`
 	DownAtNew []int        `json:"down_at_creation,omitempty"`
 	Steps     []Step       `json:"steps"`
+	// ProbeKinds: call types that, after the RPC probes, must reach every node as well
+	ProbeKinds []string `json:"probe_kinds,omitempty"`
 }
+
+var probeKinds = []string{"QC", "QCPerNode", "Async", "Corr", "CorrStream", "Multicast", "MulticastPerNode", "Unicast"}
 
 var trafficKinds = []string{"RPC", "QC", "Async", "Corr", "CorrStream", "Multicast", "Unicast", "QCPerNode"}
 
@@ -74,6 +78,7 @@ func gen(t *rapid.T) Case {
 			c.Steps = append(c.Steps, Step{Op: "start", Node: s})
 		}
 	}
+	c.ProbeKinds = rapid.SliceOfNDistinct(rapid.SampledFrom(probeKinds), 1, 3, rapid.ID[string]).Draw(t, "probeKinds")
 	return c
 }
 
@@ -206,6 +211,54 @@ func once(c Case) outcome {
 			return o
 		}
 	}
+	// (a') calls of other types reach every node as well (all nodes are up and have answered an RPC)
+	for _, kind := range c.ProbeKinds {
+		var missing []int
+		for attempt := 0; attempt < 3; attempt++ {
+			tok := scen.NewTokens(1)
+			spec := scen.CallSpec{Kind: kind, Ctx: "cancel", Script: scen.QScript{Kind: "threshold", Q: c.N}}
+			targets := c.N
+			if scen.IsNodeCall(kind) {
+				spec.Node = attempt % c.N
+				targets = 1
+			}
+			if scen.IsStream(kind) {
+				for k := 0; k < c.N; k++ {
+					cl.SetBehaviour(k, tok, scen.Behaviour{Stream: []scen.StreamItem{{Level: 1}}})
+				}
+			}
+			call := client.NewCall(2000+idx, tok, uint64(2000+idx), spec)
+			idx++
+			go call.Issue()
+			cl.Log.WaitFor(scen.B, func(evs []scen.Event) bool {
+				return scen.Count(evs, func(e scen.Event) bool { return e.Kind == "enter" && e.Token == tok }) >= targets
+			})
+			got := map[int]bool{}
+			for _, e := range cl.Log.Snapshot() {
+				if e.Kind == "enter" && e.Token == tok {
+					got[e.Server] = true
+				}
+			}
+			missing = missing[:0]
+			for _, sv := range call.Targets {
+				if !got[sv] {
+					missing = append(missing, sv)
+				}
+			}
+			scen.Await(call.DoneCh(), 2*time.Second)
+			call.Cancel()
+			if len(missing) == 0 {
+				break
+			}
+		}
+		if len(missing) > 0 {
+			o.key = "C10/not-contacted-again/" + strings.ToLower(kind)
+			o.msg = fmt.Sprintf("every server listens again and has answered an RPC, but 3 consecutive %s calls did not reach server(s) %v within %v each", kind, missing, scen.B)
+			o.events = cl.Log.Snapshot()
+			return o
+		}
+		o.classes = append(o.classes, "probe-kind="+kind)
+	}
 	// (c) metadata and connect callbacks
 	evs := cl.Log.Snapshot()
 	o.events = evs
@@ -286,7 +339,7 @@ func run(c Case) vt.Verdict {
 func TestProp(t *testing.T) {
 	vt.Main(t, vt.Spec[Case]{
 		ID:           "C10",
-		Rule:         "fault-sequence generation: 1-3 nodes, any subset down when the manager is created, a generated sequence of stop / start events, traffic calls of 8 kinds with 150 ms deadlines and sleeps (so crashes strike with calls pending and during back-off), all nodes listening again at the end; manager metadata and per-node metadata function generated; gorums' and grpc's back-off set to 400 or 1200 ms. Oracle: (a) repeated RPCs reach every node that listens again within the bound, without recreating manager or configuration; (b) for the first RPC whose request the restarted server handled, the time from the handler's exit to the call's return must stay below half the back-off (replies otherwise take < 5 ms; a slow reply is confirmed by a second independent run of the case); a probe that the restarted server handled and answered must not fail at the caller (reported if a second independent run loses the reply again); (c) every accepted stream triggered exactly one connect callback whose context carries all general pairs and exactly the per-node pairs of that node's id; non-trivial = some node was restarted or came up after the manager was created",
+		Rule:         "fault-sequence generation: 1-3 nodes, any subset down when the manager is created, a generated sequence of stop / start events, traffic calls of 8 kinds with 150 ms deadlines and sleeps (so crashes strike with calls pending and during back-off), all nodes listening again at the end; manager metadata and per-node metadata function generated; gorums' and grpc's back-off set to 400 or 1200 ms. Oracle: (a) repeated RPCs reach every node that listens again within the bound, without recreating manager or configuration, and then calls of 1-3 further generated types (quorum, per-node, async, correctable, stream, multicast, per-node multicast, unicast) reach every node as well (3 attempts each); (b) for the first RPC whose request the restarted server handled, the time from the handler's exit to the call's return must stay below half the back-off (replies otherwise take < 5 ms; a slow reply is confirmed by a second independent run of the case); a probe that the restarted server handled and answered must not fail at the caller (reported if a second independent run loses the reply again); (c) every accepted stream triggered exactly one connect callback whose context carries all general pairs and exactly the per-node pairs of that node's id; non-trivial = some node was restarted or came up after the manager was created",
 		Gen:          gen,
 		Run:          run,
 		TrackCurrent: true,
